@@ -166,7 +166,7 @@ theorem one_refused_step_in_add_outcomes (C : Codec) (lay : Layout) (cap : Nat) 
     rw [← viewOf_drop]
     exact viewOf_congr _ _ _ hcont
   refine ⟨l0, viewOf (s.dirs b) l0, good_listing hg, good_view hg, good_nodup hg, hfr, hev, hwf', ?_⟩
-  rcases hcase with ⟨hres, hld, hnew⟩ | ⟨hres, hsuf, ks, ⟨j, hj1, hj2⟩, hflt⟩
+  rcases hcase with ⟨hres, hld, hnew⟩ | ⟨hres, hsuf, ks, ⟨j, hj1, hj2⟩, hflt, _⟩
   · left
     subst hld
     refine ⟨hres, ?_, ?_⟩
